@@ -477,8 +477,8 @@ package pdf
 //@   ensures forall i in 0..old(len(w.w.log)) :: w.w.log[i] == old(w.w.log[i])
 
 //@ func (*Writer).Alloc (w) (r)
-//@   tags C02 C03
-//@   requires w.nextRef < 16777216
+//@   tags C02 C03 C11
+//@   panics-if w.nextRef >= 16777216
 //@   assigns w.nextRef
 //@   ensures r == old(w.nextRef) && w.nextRef == old(w.nextRef) + 1
 
@@ -500,8 +500,100 @@ package pdf
 
 //@ func (*Writer).WriteCompressed (w, refs, objects) (err)
 //@   tags C02
-//@   requires w.xref != nil && w.w != nil && w.nextRef < 16777216
-//@   havoc .Format .Put .OpenStream
+//@   requires w.xref != nil && w.w != nil
+//@   requires forall i in 0..len(refs) :: refs[i] % 4294967296 < 16777216
+//@   havoc .Format .Put
 //@   loop 1: invariant len(refs) == len(objects)
 //@   loop 2: invariant len(refs) == len(objects) && w.xref != nil
 //@   loop 3: invariant len(refs) == len(objects) && N == len(objects)
+
+//@ func (*Writer).OpenStream (w, ref, dict, filters) (sw, err)
+//@   trusted
+//@   assigns *
+//@   ensures err == nil ==> sw != nil
+
+//@ func (*encryptInfo).EncryptBytes (enc, ref, buf) (out, err)
+//@   trusted
+//@   assigns elems(buf)
+//@   ensures err == nil ==> (refof(out) == refof(buf) && offof(out) == offof(buf) && len(out) == len(buf)) || refof(out) > \top0
+
+// ---- strings: writing never modifies the caller's String (C02), buffer indices stay in range ----
+//@ func formatString (w, s, opt) (err)
+//@   tags C01 C02
+//@   requires w != nil && refof(w) != 0
+//@   assigns w.log
+//@   loop 3: invariant 0 <= used && used <= 8 && w != nil
+
+// ---- Copier (C11): node-level contracts ----
+//@ func (*Writer).Put (w, ref, obj) (err)
+//@   trusted
+//@   assigns w.all, mapof(w.xref), w.w.all, w.w.w.log
+//@   ensures w.w == old(w.w) && w.xref == old(w.xref) && w.w.w == old(w.w.w)
+
+//@ func Resolve (r, obj) (res, err)
+//@   trusted
+//@   assigns nothing
+
+//@ func IsReadError (err) (r)
+//@   trusted
+//@   pure
+//@   ensures r == (err != nil && !malformed(err))
+
+//@ func (Object).AsPDF (o, opt) (n)
+//@   trusted
+//@   pure
+
+//@ pred copierOK(c *Copier) = c.w != nil && c.trans != nil && c.w.xref != nil && c.w.w != nil
+//@ pred copierStable(c *Copier) = c.w == old(c.w) && c.trans == old(c.trans) && c.w.w == old(c.w.w) && c.w.w.w == old(c.w.w.w) && c.w.xref == old(c.w.xref)
+
+//@ func (*Copier).Copy (c, obj) (res, err)
+//@   tags C11
+//@   requires copierOK(c)
+//@   assigns mapof(c.trans), c.w.all, mapof(c.w.xref), c.w.w.all, c.w.w.w.log
+//@   ensures copierOK(c) && copierStable(c)
+//@   ensures err == nil ==> tagof(res) == tagof(obj)
+
+//@ func (*Copier).CopyArray (c, obj) (res, err)
+//@   tags C11
+//@   requires copierOK(c)
+//@   assigns mapof(c.trans), c.w.all, mapof(c.w.xref), c.w.w.all, c.w.w.w.log
+//@   ensures copierOK(c) && copierStable(c)
+//@   ensures err == nil ==> len(res) == len(obj)
+//@   ensures err == nil ==> (refof(res) == 0) == (refof(obj) == 0)
+//@   ensures err == nil ==> forall i in 0..len(obj) :: (obj[i] == nil ==> res[i] == nil)
+//@   loop 1: invariant copierOK(c) && copierStable(c) && len(res) == \done && (refof(res) == 0 || refof(res) > \top0)
+//@   loop 1: invariant forall j in offof(res)..offof(res)+len(res) :: (obj[j - offof(res)] == nil ==> raw(res)[j] == nil)
+
+//@ func (*Copier).copyStreamDict (c, src) (res, err)
+//@   trusted
+//@   assigns mapof(c.trans), c.w.all, mapof(c.w.xref), c.w.w.all, c.w.w.w.log
+//@   ensures copierOK(c) && copierStable(c)
+
+//@ func streamCryptRecipe (r, x) (recipe, err)
+//@   trusted
+//@   assigns nothing
+
+//@ func RawStreamReader (r, x) (rc, err)
+//@   trusted
+//@   assigns nothing
+//@   ensures err == nil ==> rc != nil
+
+//@ func (Dict).SortedKeys (d) (keys)
+//@   trusted
+//@   pure
+//@   fresh keys
+
+//@ func (*Copier).CopyDict (c, obj) (res, err)
+//@   tags C11
+//@   requires copierOK(c)
+//@   assigns mapof(c.trans), c.w.all, mapof(c.w.xref), c.w.w.all, c.w.w.w.log
+//@   ensures copierOK(c) && copierStable(c)
+//@   ensures err == nil ==> res != nil && res > \top0
+//@   loop 1: invariant copierOK(c) && copierStable(c) && res != nil && res > \top0
+
+//@ func (*Copier).CopyReference (c, obj) (res, err)
+//@   tags C11
+//@   requires copierOK(c)
+//@   assigns mapof(c.trans), c.w.all, mapof(c.w.xref), c.w.w.all, c.w.w.w.log
+//@   ensures copierOK(c) && copierStable(c)
+//@   ensures old(obj in c.trans) ==> err == nil && res == old(c.trans[obj]) && c.w.nextRef == old(c.w.nextRef)
